@@ -182,12 +182,12 @@ CLAIMS["C04"] = dict(
     note=TB + 'NOT covered: that the parser calls these functions in an order that yields a balanced stream for every document (a postcondition of the whole block pass, not within reach), that nothing is left open at the end of the document, that a new-list-item token appears directly inside its list, link/image nesting, and the stacks kept by rules and generators.')
 
 CLAIMS["C08"] = dict(
-    text="Proof of what a fix is allowed to touch (a fragment of the property): the fix vocabulary is closed -- every (rule, token field) a rule can pass to register_fix_token_request, the field name resolved through locals, parameters and queued Fixer records, is in the whitelist specs/fix_vocabulary.json, and token ranges are replaced only by MD012/MD031/MD046 (one structural obligation per call site); a request is queued exactly once behind those already queued for the token and nothing else in the queue changes (register_fix_token_request, register_replace_tokens_request); _modify_token of all 15 token classes stores the requested value into exactly the attribute behind the named field and nothing else but the derived extra_data, unknown field or ill-typed value changes nothing; the replacement splice __apply_replacement_fix keeps every token before and after the replaced range exactly once and in order, moves the line number of exactly the tokens after the range by (lines of the replacement - lines replaced) and moves every pragma line below the range -- also those of the alternate '<!---' prefix, kept under negative keys -- by the same amount while every other pragma stays, none lost or overwritten (loop invariants, no bound; D12, D17 fixed); conflicting requests are refused, never silently resolved (__look_for_collisions raises iff a token of the range is already edited or replaced, __apply_replacements checks ALL replacements before applying the first and applies each once in order, __apply_token_fix applies every requested edit once, in order, and aborts when the token refuses one); a fix pass cut short by a failing rule or the parser has not written the user's file; in fix mode every line handed to PluginManager.next_line is written to the output of the pass exactly once, whichever context the last rule was given (D21, data loss, fixed); every character the regenerator deletes from its output is reserved by the parser (fails: known finding D6).",
-    note=TB + 'Known finding D6 (thorn / U+8268 / U+8269 deleted by any token-level fix). NOT covered: that editing a style field preserves the parse (indent_level ...), the regenerator itself (incl. where it re-inserts pragma lines, D17(a)), that the value a rule writes into a text-carrying field equals the old text up to whitespace. Meaning preservation of the whole pipeline is not decided by this check.')
+    text="Proof of what a fix is allowed to touch (a fragment of the property): the fix vocabulary is closed -- every (rule, token field) a rule can pass to register_fix_token_request, the field name resolved through locals, parameters and queued Fixer records, is in the whitelist specs/fix_vocabulary.json, and token ranges are replaced only by MD012/MD031/MD046 (one structural obligation per call site); a request is queued exactly once behind those already queued for the token and nothing else in the queue changes (register_fix_token_request, register_replace_tokens_request); _modify_token of all 15 token classes stores the requested value into exactly the attribute behind the named field and nothing else but the derived extra_data, unknown field or ill-typed value changes nothing; the replacement splice __apply_replacement_fix keeps every token before and after the replaced range exactly once and in order, moves the line number of exactly the tokens after the range by (lines of the replacement - lines replaced) and moves every pragma line below the range -- also those of the alternate '<!---' prefix, kept under negative keys -- by the same amount while every other pragma stays, none lost or overwritten (loop invariants, no bound; D12, D17 fixed); conflicting requests are refused, never silently resolved (__look_for_collisions raises iff a token of the range is already edited or replaced, __apply_replacements checks ALL replacements before applying the first and applies each once in order, __apply_token_fix applies every requested edit once, in order, and aborts when the token refuses one); a fix pass cut short by a failing rule or the parser has not written the user's file; in fix mode every line handed to PluginManager.next_line is written to the output of the pass exactly once, whichever context the last rule was given (D21, data loss, fixed); every character the regenerator deletes from its output is reserved by the parser (fails: known finding D6); the one fix that rewrites a content-bearing field with a computed text is pinned down character for character: MD038 requests span_text minus its first character iff that is the unnecessary leading space and minus its last character iff that is the unnecessary trailing space, every other character kept in place (seeded change C08-C).",
+    note=TB + 'Known finding D6 (thorn / U+8268 / U+8269 deleted by any token-level fix). NOT covered: that editing a style field preserves the parse (indent_level ...), the regenerator itself (incl. where it re-inserts pragma lines, D17(a)), that the value a rule writes into a text-carrying field equals the old text up to whitespace, for the rules other than MD038 (MD037 / MD039 / MD044 edit text fields too). Meaning preservation of the whole pipeline is not decided by this check.')
 
 CLAIMS["C06"] = dict(
-    text="Proof for the nine rules brought under contract (a fragment: the property quantifies over all 46 rules), each against a spec automaton transcribed from the rule's documentation, for all token / line sequences and all configurations: MD013 (line length: limit by element kind, headings / code_blocks switches, long-last-word exemption, strict; the quick-reject threshold established by initialize_from_config never exceeds a limit), MD001 (heading increment, incl. the front-matter title and the value the fix requests), MD025 (single top-level heading), MD035 (thematic-break style, consistent mode), MD047 (file ends with a newline, reported at the end of the last line; fix appends exactly one newline), MD048 (code-fence style, consistent mode, fix character), MD004 (unordered-list marker: configured / consistent / per-level `sublist` expectation kept in a map, nesting level, fix character), MD041 (first element: nothing after the first verdict, heading level, every reported position has line >= 1 and column >= 1; D24 fixed), MD046 (code-block style, consistent mode; scan mode only): each step reports exactly once iff the documented condition holds in the automaton state, at the token's position, and updates the state as documented; every starting_new_file re-initialises that state; for all 46 rules the configuration items read by initialize_from_config (names, types, defaults) equal the documented table (shared with C17).",
-    note=TB + "Known finding D13 (MD013 stern mode inverted against its documentation). NOT covered: the trigger conditions of the other 37 rules (their token-driven state machines need the token stream specified first, C04/C05 in full); which leaf token a line belongs to (MD013) is taken from the rule's own bookkeeping; string comparisons of texts longer than one character are by identity of the string value in the encoding (the specification uses the same comparison).")
+    text="Proof for the thirteen rules brought under contract (a fragment: the property quantifies over all 46 rules), each against a spec automaton transcribed from the rule's documentation, for all token / line sequences and all configurations: MD013 (line length: limit by element kind, headings / code_blocks switches, long-last-word exemption, strict; the quick-reject threshold established by initialize_from_config never exceeds a limit), MD001 (heading increment, incl. the front-matter title and the value the fix requests), MD025 (single top-level heading), MD035 (thematic-break style, consistent mode), MD047 (file ends with a newline, reported at the end of the last line; fix appends exactly one newline), MD048 (code-fence style, consistent mode, fix character), MD004 (unordered-list marker: configured / consistent / per-level `sublist` expectation kept in a map, nesting level, fix character), MD041 (first element: nothing after the first verdict, heading level, every reported position has line >= 1 and column >= 1; D24 fixed), MD046 (code-block style, consistent mode; scan mode only), MD040 / MD042 / MD045 (fenced block without language; inline link or image whose URI is empty, blank or '#'; image without alternate text: reported iff the documented field stripped of the documented character class is empty, for exactly the documented token kinds), MD038 (code span with an unnecessary leading / trailing space: exactly the documented shape, and the text the fix requests): each step reports exactly once iff the documented condition holds in the automaton state, at the token's position, and updates the state as documented; every starting_new_file re-initialises that state; for all 46 rules the configuration items read by initialize_from_config (names, types, defaults) equal the documented table (shared with C17).",
+    note=TB + "Known finding D13 (MD013 stern mode inverted against its documentation). NOT covered: the trigger conditions of the other 33 rules (their token-driven state machines need the token stream specified first, C04/C05 in full); which leaf token a line belongs to (MD013) is taken from the rule's own bookkeeping; string comparisons of texts longer than one character are by identity of the string value in the encoding (the specification uses the same comparison); str.strip(chars) is an uninterpreted function of (string, chars) with length facts only, so MD040 / MD042 / MD045 are proved relative to Python's meaning of strip.")
 
 NA = {
     "C01": "totality of the ~60 kLoC parser is a postcondition of TokenizedMarkdown.transform; no contract chain within reach without a Python deductive verifier (DESIGN.md 7)",
